@@ -1,4 +1,5 @@
 import TinyFlux.Audit.Tool
 import TinyFlux.Props.C17
 import TinyFlux.Props.C17State
+import TinyFlux.Props.C17Witness
 #audit TinyFlux.Props.C17
